@@ -237,6 +237,9 @@ where
 pub struct RunCfg {
     pub tick_sample: u64,
     pub tick_query: u64,
+    /// cost of a validity query in nanoseconds of virtual time, when it is not a whole number of ticks
+    /// (0 = use `tick_query`)
+    pub query_ns: u64,
     /// extra sampler calls tolerated after the deadline before the run is aborted
     pub cap_slack: u64,
     pub query_cap: u64,
@@ -250,6 +253,7 @@ impl Default for RunCfg {
         RunCfg {
             tick_sample: 1,
             tick_query: 0,
+            query_ns: 0,
             cap_slack: 8,
             query_cap: 3_000_000,
             fail_uniform_at: None,
@@ -271,7 +275,7 @@ where
     SP: StateSpace + Clone,
     SP::StateType: State + Clone,
 {
-    let c = RunCfg { wallclock: true, tick_sample: cfg.tick_sample, tick_query: cfg.tick_query, cap_slack: cfg.cap_slack,
+    let c = RunCfg { wallclock: true, tick_sample: cfg.tick_sample, tick_query: cfg.tick_query, query_ns: cfg.query_ns, cap_slack: cfg.cap_slack,
                      query_cap: cfg.query_cap, fail_uniform_at: cfg.fail_uniform_at, fail_goal_at: cfg.fail_goal_at };
     run_history_marked(kind, params, space, problems, calls, &c, &|_, _| {})
 }
@@ -328,7 +332,7 @@ where
     {
         let mut l = log.borrow_mut();
         l.ctl.tick_sample = cfg.tick_sample * TICK_NS;
-        l.ctl.tick_query = cfg.tick_query * TICK_NS;
+        l.ctl.tick_query = if cfg.query_ns > 0 { cfg.query_ns } else { cfg.tick_query * TICK_NS };
         l.ctl.fail_uniform_at = cfg.fail_uniform_at;
         l.ctl.fail_goal_at = cfg.fail_goal_at;
     }
@@ -385,7 +389,7 @@ where
             l.ctl.n_samples_this_call = 0;
             l.ctl.n_queries_this_call = 0;
             l.ctl.query_cap = cfg.query_cap;
-            l.ctl.tick_query = if matches!(call, Call::SolveTicking(_)) { TICK_NS } else { cfg.tick_query * TICK_NS };
+            l.ctl.tick_query = if matches!(call, Call::SolveTicking(_)) { TICK_NS } else if cfg.query_ns > 0 { cfg.query_ns } else { cfg.tick_query * TICK_NS };
             let budget = match call {
                 Call::Solve(t) | Call::SolveTicking(t) => *t,
                 Call::Construct => if cur_params.build_ticks >= u64::MAX - 1 { 5 } else { cur_params.build_ticks },
